@@ -90,6 +90,48 @@ Theorem gen_allocate_sizeof_8 : forall n,
 Proof. exact gen_allocate_8. Qed.
 Print Assumptions gen_allocate_sizeof_8.
 
+(* the typed overload alignedMalloc<T>(nElements, align) hands exactly (nElements*sizeof(T) mod 2^64, align)
+   to the untyped alignedMalloc: the model's aligned_malloc_typed is the generated request *)
+Theorem gen_typed_alignedMalloc_sizeof_4 : forall ost be ndebug (w : world ost) n a,
+  aligned_malloc_typed ost be ndebug w 4 n a =
+  aligned_malloc ost be ndebug w (fst (GenAlloc.memory_alignedMalloc__ul_ul_request MZ n a))
+                                 (snd (GenAlloc.memory_alignedMalloc__ul_ul_request MZ n a)).
+Proof. exact gen_typed_model_4. Qed.
+Print Assumptions gen_typed_alignedMalloc_sizeof_4.
+
+Theorem gen_typed_alignedMalloc_sizeof_8 : forall ost be ndebug (w : world ost) n a,
+  aligned_malloc_typed ost be ndebug w 8 n a =
+  aligned_malloc ost be ndebug w (fst (GenAlloc.memory_alignedMalloc__ul_ul_2_request MZ n a))
+                                 (snd (GenAlloc.memory_alignedMalloc__ul_ul_2_request MZ n a)).
+Proof. exact gen_typed_model_8. Qed.
+Print Assumptions gen_typed_alignedMalloc_sizeof_8.
+
+Theorem gen_typed_request_forwards_alignment : forall n a,
+  GenAlloc.memory_alignedMalloc__ul_ul_request MZ n a = (wrap (n * 4), a) /\
+  GenAlloc.memory_alignedMalloc__ul_ul_2_request MZ n a = (wrap (n * 8), a).
+Proof. exact (fun n a => conj (gen_typed_request_4 n a) (gen_typed_request_8 n a)). Qed.
+Print Assumptions gen_typed_request_forwards_alignment.
+
+(* aligned_allocator::construct is placement copy construction from its second parameter and nothing else;
+   destroy is the in-place destructor call and nothing else (the element events of Model.v) *)
+Theorem gen_construct_is_placement_copy :
+  GenAlloc.aligned_allocator64_construct__p_uc_shape = [CPlacementCopy] /\
+  GenAlloc.aligned_allocator64_construct__p_s_shape = [CPlacementCopy] /\
+  GenAlloc.aligned_allocator64_construct__p_f_shape = [CPlacementCopy] /\
+  GenAlloc.aligned_allocator64_construct__p_d_shape = [CPlacementCopy] /\
+  GenAlloc.containers_aligned_allocator64_construct__p_Obj_shape = [CPlacementCopy].
+Proof. exact gen_construct_shapes. Qed.
+Print Assumptions gen_construct_is_placement_copy.
+
+Theorem gen_destroy_is_destructor_call :
+  GenAlloc.aligned_allocator64_destroy__p_shape = [CDestroyInPlace] /\
+  GenAlloc.aligned_allocator64_destroy__p_2_shape = [CDestroyInPlace] /\
+  GenAlloc.aligned_allocator64_destroy__p_3_shape = [CDestroyInPlace] /\
+  GenAlloc.aligned_allocator64_destroy__p_4_shape = [CDestroyInPlace] /\
+  GenAlloc.containers_aligned_allocator64_destroy__p_shape = [CDestroyInPlace].
+Proof. exact gen_destroy_shapes. Qed.
+Print Assumptions gen_destroy_is_destructor_call.
+
 (* non-vacuity: the generated body at the boundary *)
 Example gen_allocate_boundary :
   run (GenAlloc.aligned_allocator64_allocate__ul_4_body MZ tt 0) = RNull /\
